@@ -3,7 +3,7 @@
    the implementation's own pre-state, the operation, what it returned and the
    post-state.  Executable only. *)
 From Coq Require Import List NArith ZArith Bool.
-From Verif Require Import Base.Bytes SegLog.Log SegLog.Spec.
+From Verif Require Import Base.Bytes SegLog.Log SegLog.Spec SegLog.Crash.
 Import ListNotations.
 Open Scope N_scope.
 
@@ -74,13 +74,57 @@ Definition model_step (l : log) (o : op) : sres * log :=
   | _ => (SOk, step l o)
   end.
 
+(* ---- crash cases: the harness copies the directory at every verifPoint of an operation
+   (process-kill images) and mixes pages of the last flushed copy with the current one
+   (power-loss images), reopens each with the real Open and prints what came back *)
+Definition olog_eqb (a b : option log) : bool :=
+  match a, b with
+  | None, None => true
+  | Some x, Some y => list_eqb seg_eqb (l_segs x) (l_segs y)
+  | _, _ => false
+  end.
+
+(* observed images must match the model's images at non-decreasing crash points *)
+Fixpoint drop_until (x : option log) (model : list (option log)) : list (option log) :=
+  match model with
+  | [] => []
+  | y :: r => if olog_eqb x y then model else drop_until x r
+  end.
+Fixpoint match_incr (model obs : list (option log)) : bool :=
+  match obs with
+  | [] => true
+  | x :: xs => match drop_until x model with [] => false | m => match_incr m xs end
+  end.
+
+(* all ways of choosing, per file, whether the header page reached the disk *)
+Fixpoint choices (keys : list N) : list (N -> bool * list bytes) :=
+  match keys with
+  | [] => [fun _ => (true, [])]
+  | k :: r => flat_map (fun f => [fun x => if x =? k then (true, []) else f x;
+                                  fun x => if x =? k then (false, []) else f x]) (choices r)
+  end.
+
+Definition crash_points (l : log) (o : op) : list nat := seq 0 (S (length (op_prims l o))).
+
+Definition model_kill (segsize : N) (c : cstate) (l : log) (o : op) : list (option log) :=
+  map (fun k => recover segsize (image_of Kill (apply_prims c (firstn k (op_prims l o))) (fun _ => (true, []))))
+      (crash_points l o).
+Definition model_power (segsize : N) (c : cstate) (l : log) (o : op) : list (option log) :=
+  flat_map (fun k => let c' := apply_prims c (firstn k (op_prims l o)) in
+                     map (fun ch => recover segsize (image_of PowerLoss c' ch)) (choices (map fst (c_mem c'))))
+           (crash_points l o).
+
 Inductive lcase :=
+| LCrash (id : N) (segsize : N) (pre : log) (c : cstate) (o : op) (kill power : list (option log))
 | LStep (id : N) (pre : log) (o : op) (r : sres) (post : log)
 | LRead (id : N) (pre : log) (rd : read) (obs : robs)
 | LView (id : N) (at_creation : log) (p q : N) (now : log) (rd : read) (obs : robs).
 
 Definition check_lcase (c : lcase) : bool :=
   match c with
+  | LCrash _ segsize pre cs o kill power =>
+      match_incr (model_kill segsize cs pre o) kill &&
+      forallb (fun x => existsb (olog_eqb x) (model_power segsize cs pre o)) power
   | LStep _ pre o r post =>
       let (r', post') := model_step pre o in sres_eqb r r' && log_eqb post post'
   | LRead _ pre rd obs => robs_eqb (model_read (handle_of pre) (Some pre) rd) obs
@@ -91,6 +135,6 @@ Definition check_lcase (c : lcase) : bool :=
       end
   end.
 Definition lcase_id (c : lcase) : N :=
-  match c with LStep i _ _ _ _ | LRead i _ _ _ | LView i _ _ _ _ _ _ => i end.
+  match c with LCrash i _ _ _ _ _ _ | LStep i _ _ _ _ | LRead i _ _ _ | LView i _ _ _ _ _ _ => i end.
 Definition mismatches (l : list lcase) : list N :=
   map lcase_id (filter (fun c => negb (check_lcase c)) l).
